@@ -507,6 +507,7 @@ qlisttbl_data_t *qlisttbl_getmulti(qlisttbl_t *tbl, const char *name, bool newme
     qlisttbl_data_t *objs = NULL;  // objects container
     size_t allocobjs = 0;  // allocated number of objs
     size_t numfound = 0;  // number of keys found
+    bool nomem = false;  // set when the result array could not be grown
 
     qlisttbl_obj_t obj;
     memset((void *)&obj, 0, sizeof(obj)); // must be cleared before call
@@ -516,14 +517,21 @@ qlisttbl_data_t *qlisttbl_getmulti(qlisttbl_t *tbl, const char *name, bool newme
 
         // allocate object array.
         if (numfound >= allocobjs) {
-            if (allocobjs == 0) allocobjs = 10;  // start from 10
-            else allocobjs *= 2;  // double size
-            objs = (qlisttbl_data_t *)realloc(objs, sizeof(qlisttbl_data_t) * allocobjs);
-            if (objs == NULL) {
+            size_t newalloc = (allocobjs == 0) ? 10 : (allocobjs * 2);
+            qlisttbl_data_t *newobjs = (qlisttbl_data_t *)realloc(objs, sizeof(qlisttbl_data_t) * newalloc);
+            if (newobjs == NULL) {
                 DEBUG("qlisttbl->getmulti(): Memory reallocation failure.");
-                errno = ENOMEM;
+                // keep what has been collected so far, drop this one.
+                if (newmem == true) {
+                    free(obj.name);
+                    free(obj.data);
+                }
+                numfound--;
+                nomem = true;
                 break;
             }
+            objs = newobjs;
+            allocobjs = newalloc;
         }
 
         // copy reference
@@ -549,7 +557,9 @@ qlisttbl_data_t *qlisttbl_getmulti(qlisttbl_t *tbl, const char *name, bool newme
         *numobjs = numfound;
     }
 
-    if (numfound == 0) {
+    if (nomem) {
+        errno = ENOMEM;
+    } else if (numfound == 0) {
         errno = ENOENT;
     }
 
